@@ -64,7 +64,8 @@ func (w *World) codecs() map[string]*codec {
 			continue
 		}
 		for _, c := range out {
-			if namedIs(recv.Type(), hessianPath, "Decoder") && c.Dec != nil && len(fn.Blocks) == 1 && callsStatic(fn, c.Dec) {
+			if namedIs(recv.Type(), hessianPath, "Decoder") && c.Dec != nil && callsStatic(fn, c.Dec) && fn.Signature.Params().Len() == 1 &&
+				typeStr(fn.Signature.Params().At(0).Type()) == "int32" && typeStr(fn.Signature.Results().At(0).Type()) == typeStr(c.Dec.Signature.Results().At(0).Type()) {
 				c.Wrap = fn
 			}
 			if namedIs(recv.Type(), hessianPath, "Encoder") && c.Enc != nil && len(fn.Blocks) <= 3 && callsStatic(fn, c.Enc) && fn.Signature.Params().Len() == 1 &&
